@@ -386,7 +386,9 @@ impl Check for C13 {
             out.count("pingreq_due_right_after_the_request", 1);
         }
         // one disconnect request in three is followed by "drop the handle, connect again, poll"
-        let reconnect_after = matches!(request, Step::Disconnect(_)) && rng.chance(1, 3);
+        // (and one poll / recv / drive request in four: a read given up in the middle of an
+        // inbound packet must not reach into the next connection)
+        let reconnect_after = (matches!(request, Step::Disconnect(_)) && rng.chance(1, 3)) || (matches!(request, Step::Poll { .. } | Step::Recv { .. } | Step::Drive { .. }) && rng.chance(1, 4));
         // one queue-based request in four is followed by a QoS 0 publish
         let then_qos0 = matches!(request, Step::Publish(_) | Step::Subscribe(_) | Step::Unsubscribe(_)) && rng.chance(1, 4);
         if then_qos0 {
@@ -511,6 +513,11 @@ impl Check for C13 {
                         }
                     }
                 }
+                // the reconnect itself fares as in the uncancelled run
+                let last_connect = |l: &RunLog| l.ops.iter().rev().find(|o| o.kind == "connect").map(|o| o.outcome.clone());
+                if matches!(last_connect(&alog), Some(Outcome::Ok(_))) && !matches!(last_connect(&blog), Some(Outcome::Ok(_))) {
+                    out.violations.push(viol("C13", format!("C13/{}/next-connect-fails", kind), format!("{} cancelled at await {:?}, handle dropped: the next connect() returned {:?} (uncancelled run: {:?})", kind, cancels, last_connect(&blog), last_connect(&alog))));
+                }
                 let (la, lb) = (a_obs.packets.last(), b_obs.packets.last());
                 let lc = c_obs.as_ref().and_then(|c| c.packets.last());
                 // a (disconnect completed) <= b <= c (no disconnect at all), as subsequences, and
@@ -520,6 +527,9 @@ impl Check for C13 {
                     x.iter().all(|p| it.any(|q| q == p))
                 };
                 let ok = match (la, lb, lc) {
+                    // (a read given up half-way may leave an acknowledgement owed that the next
+                    // connection carries: for poll / recv / drive only the CONNECT is compared)
+                    (Some(la), Some(lb), Some(_)) if kind != "disconnect" => la.first() == lb.first(),
                     (Some(la), Some(lb), Some(lc)) => la == lb || lb == lc || (la.first() == lb.first() && subseq(la, lb) && subseq(lb, lc)),
                     _ => false,
                 };
@@ -528,7 +538,7 @@ impl Check for C13 {
                 }
                 if a_obs.packets.len() != b_obs.packets.len() || !ok || bw.conns.last().is_some_and(|c| c.out.error.is_some()) {
                     let i = la.zip(lb).and_then(|(x, y)| x.iter().zip(y.iter()).position(|(p, q)| p != q)).unwrap_or(0);
-                    out.violations.push(viol("C13", "C13/disconnect/next-connection-differs", format!("disconnect cancelled at await {:?}, handle dropped, connected again: the new connection's outbound stream differs from the uncancelled run and from a run without disconnect() at packet {} ({} vs {} packets; uncancelled {} / cancelled {})", cancels, i, la.map(|x| x.len()).unwrap_or(0), lb.map(|x| x.len()).unwrap_or(0), la.and_then(|x| x.get(i)).map(|p| describe(p)).unwrap_or_default(), lb.and_then(|x| x.get(i)).map(|p| describe(p)).unwrap_or_default())));
+                    out.violations.push(viol("C13", format!("C13/{}/next-connection-differs", kind), format!("request cancelled at await {:?}, handle dropped, connected again: the new connection's outbound stream differs from the uncancelled run and from a run without the request at packet {} ({} vs {} packets; uncancelled {} / cancelled {})", cancels, i, la.map(|x| x.len()).unwrap_or(0), lb.map(|x| x.len()).unwrap_or(0), la.and_then(|x| x.get(i)).map(|p| describe(p)).unwrap_or_default(), lb.and_then(|x| x.get(i)).map(|p| describe(p)).unwrap_or_default())));
                 }
             } else if polled_flag.get() {
                 // the application polled between the cancelled disconnect() and the next one: the
@@ -736,6 +746,81 @@ fn c15_profile(r: &mut Rng) -> Profile {
 
 #[derive(PartialEq, Debug)]
 struct Results(Vec<(&'static str, Outcome)>);
+
+/// C15, the connection ends when the transport has accepted only the first k bytes of a request's
+/// packet (the caller gives up there and drops the handle); the same Session resumes on a new
+/// transport. What the new connection carries must not depend on k.
+fn ends_inside_outbound(rng: &mut Rng, seed: u64, verbose: bool) -> CaseOut {
+    let mut out = CaseOut::default();
+    let cfg = CaseCfg { rx: 128, tx: 512, keepalive: 0, ..CaseCfg::default() };
+    let request = match rng.below(4) {
+        0 => pub1("w", 1, rng.below(20)),
+        1 => pubq(2, "w2", 2, rng.below(20)),
+        2 => Step::Subscribe(SubSpec { filters: vec![FilterSpec { filter: "w/#".into(), max_qos: 1, no_local: false, rap: false, rh: 0 }], props: vec![], cancel_at: None }),
+        _ => Step::Unsubscribe(UnsubSpec { filters: vec!["w".into(), "x/y".into()], props: vec![], cancel_at: None }),
+    };
+    // an earlier, fully sent and unacknowledged request in front of it (or not)
+    let earlier = rng.chance(1, 2);
+    let len = {
+        let mut st = vec![connect_with(SpMode::Force(false), AckMode::Hold, vec![])];
+        if earlier {
+            st.push(pub1("e", 7, 3));
+        }
+        st.push(request.clone());
+        let (_l, w) = run_script(&cfg, st, seed);
+        let w = w.borrow();
+        w.conns[0].out.packets.last().map(|p| p.end - p.start).unwrap_or(0)
+    };
+    if len < 3 {
+        return out;
+    }
+    let mut ks: Vec<usize> = (1..len).collect();
+    rng.shuffle(&mut ks);
+    ks.truncate(6);
+    ks.insert(0, 0);
+    let mut reference: Option<Vec<u8>> = None;
+    for k in ks {
+        let mut steps = vec![connect_with(SpMode::Force(false), AckMode::Hold, vec![])];
+        if earlier {
+            steps.push(pub1("e", 7, 3));
+        }
+        steps.push(Step::Broker(BrokerAct::WriteGate { after: k, blocks: 1 }));
+        steps.push(request.clone());
+        steps.push(Step::DropConn);
+        steps.push(connect_with(SpMode::Force(true), AckMode::Hold, vec![]));
+        for _ in 0..3 {
+            steps.push(poll0());
+        }
+        let (log, world) = run_script(&cfg, steps, seed);
+        let w = world.borrow();
+        out.evaluations += 1;
+        out.count("twins_compared", 1);
+        let given_up = log.ops.iter().any(|o| o.outcome == Outcome::CallerTimeout && o.out_after - o.out_before == k && o.conn == Some(0));
+        if !given_up || w.conns.len() < 2 {
+            continue;
+        }
+        out.count("connections_ended_inside_an_outbound_packet", 1);
+        out.nontrivial.push(hash_of(&(request.kind(), k.min(8), earlier)));
+        let bytes = w.conns[1].out.bytes.clone();
+        match &reference {
+            None => reference = Some(bytes),
+            Some(rb) => {
+                if *rb != bytes || w.conns[1].out.error.is_some() {
+                    let at = rb.iter().zip(&bytes).position(|(a, b)| a != b).unwrap_or(rb.len().min(bytes.len()));
+                    out.violations.push(viol("C15", "C15/outbound-cut-point-dependence", format!("{} given up after {} of {} bytes, handle dropped, session resumed: the new connection's outbound stream differs at byte {} from the one after 0 bytes ({} vs {} bytes: {:02x?} / {:02x?})", request.kind(), k, len, at, bytes.len(), rb.len(), &bytes[at.min(bytes.len())..bytes.len().min(at + 8)], &rb[at.min(rb.len())..rb.len().min(at + 8)])));
+                    if verbose {
+                        for l in render(&log, &w, 300) {
+                            println!("{}", l);
+                        }
+                    }
+                    break;
+                }
+            }
+        }
+    }
+    out.key(format!("ends-inside-outbound/{}/{}", request.kind(), if earlier { "behind-another" } else { "alone" }));
+    out
+}
 
 /// C15, the transport's send buffer fills up after k bytes of a request's packet (the caller gives
 /// the request up there) and whatever the application does next finds a transport that accepts
@@ -1042,13 +1127,13 @@ impl Check for C15 {
         v
     }
     fn workloads(&self) -> Vec<Workload> {
-        vec![Workload { name: "fragment-twin", quick: 900, thorough: 600_000 }, Workload { name: "exhaustive-chunkings", quick: 60, thorough: 6000 }, Workload { name: "stalls-under-keepalive", quick: 400, thorough: 600_000 }, Workload { name: "connection-cut-inside-a-packet", quick: 150, thorough: 30_000 }, Workload { name: "send-buffer-full-inside-a-packet", quick: 300, thorough: 60_000 }]
+        vec![Workload { name: "fragment-twin", quick: 900, thorough: 600_000 }, Workload { name: "exhaustive-chunkings", quick: 60, thorough: 6000 }, Workload { name: "stalls-under-keepalive", quick: 400, thorough: 600_000 }, Workload { name: "connection-cut-inside-a-packet", quick: 150, thorough: 30_000 }, Workload { name: "send-buffer-full-inside-a-packet", quick: 300, thorough: 60_000 }, Workload { name: "connection-ends-inside-an-outbound-packet", quick: 200, thorough: 40_000 }]
     }
     fn min_nontrivial(&self, tier: Tier) -> usize {
         if tier == Tier::Quick { 300 } else { 3000 }
     }
     fn required_counters(&self) -> Vec<&'static str> {
-        vec!["twins_compared", "chunkings_enumerated_exhaustively", "variants_with_split_packets", "stalls_inside_a_packet", "calls_repeated_after_a_stall", "keepalive_stall_variants", "slow_partial_writes", "connections_cut_inside_a_packet", "requests_given_up_inside_their_packet"]
+        vec!["twins_compared", "chunkings_enumerated_exhaustively", "variants_with_split_packets", "stalls_inside_a_packet", "calls_repeated_after_a_stall", "keepalive_stall_variants", "slow_partial_writes", "connections_cut_inside_a_packet", "requests_given_up_inside_their_packet", "connections_ended_inside_an_outbound_packet"]
     }
     fn exhaustive(&self) -> bool {
         true
@@ -1064,6 +1149,9 @@ impl Check for C15 {
         }
         if workload == 4 {
             return send_buffer_full(&mut rng, seed, verbose);
+        }
+        if workload == 5 {
+            return ends_inside_outbound(&mut rng, seed, verbose);
         }
         let profile = c15_profile(&mut rng);
         let cfg = {
